@@ -267,9 +267,16 @@ pub fn setup(rng: &mut Rng, ops: &mut Vec<String>, ctx: &mut Ctx, salts: bool) {
     let app = App::default();
     ctx.codes = rng.range(2, 3);
     binds(&app, ops, ctx.codes, 16, salts);
+    // code 2 (and sometimes 3) is the ContractWrapper-lifted flavour in half of the cases
+    let wrapped2 = rng.chance(1, 2);
+    let wrapped3 = rng.chance(1, 3);
     for (i, t) in ["A", "B", "C"].iter().enumerate() {
         if (i as u64) < ctx.codes {
-            ops.push(format!("store {}", t));
+            if (i == 1 && wrapped2) || (i == 2 && wrapped3) {
+                ops.push("store-w".into());
+            } else {
+                ops.push(format!("store {}", t));
+            }
         }
     }
     ops.push("init-bal u1 50:d1,20:d2".into());
